@@ -691,7 +691,8 @@ theorem C16_local_session_only_by_valid_login (n : Net) (op : Op) (y : Nat) (b a
 /-! ### a login succeeds exactly when it should -/
 
 /-- **C16, logins (remote), both directions.** The remote-login request of node `x` towards `y` is answered `success`
-iff `x` is ON, frames pass in both directions (NICs enabled, both terminals RUNNING, `x ≠ y`), `y` is ON with both managers
+iff `x` is ON, frames pass in both directions (NICs enabled, both terminals RUNNING, neither direction blocked on the way,
+`x ≠ y` unless the topology sends a host's frames to itself back through its gateway), `y` is ON with both managers
 RUNNING, the account exists, is enabled, the password is its current one, and fewer than `max_remote_sessions` sessions are
 open on `y`.  ("Only if" = no login without valid credentials; "if" = every such attempt on an unblocked path succeeds.) -/
 theorem C16_remote_login_ok_iff (n : Net) (x y : Nat) (u p : String) :
